@@ -166,6 +166,23 @@ func FindAccums(p *core.Program, fd *core.FuncDecl) []Accum {
 					}
 				}
 			}
+			// the new sum is built in a scratch variable (the addend's own, a parameter) whose address
+			// then becomes the accumulator: a = P.MatchPrecision(a).Add(a) … P = &a
+			if !self && as.Tok == token.ASSIGN {
+				if dv := core.VarOf(info, dest); dv != nil {
+					ast.Inspect(fd.Decl.Body, func(n ast.Node) bool {
+						nx, ok := n.(*ast.AssignStmt)
+						if !ok || len(nx.Lhs) != 1 || len(nx.Rhs) != 1 || nx.Pos() < as.End() {
+							return true
+						}
+						if u, ok := ast.Unparen(nx.Rhs[0]).(*ast.UnaryExpr); ok && u.Op == token.AND && core.VarOf(info, u.X) == dv && sameLoc(info, nx.Lhs[0], recv) {
+							self = true
+							acc.Dest = nx.Lhs[0]
+						}
+						return true
+					})
+				}
+			}
 			if !self && fn.Name() == "Add" && sameLoc(info, dest, call.Args[0]) && !sameLoc(info, dest, recv) {
 				// operands swapped: num.Amount.Add keeps the receiver's exponent
 				acc.Addend, acc.Reversed, acc.How = recv, true, "operands swapped"
